@@ -1,21 +1,12 @@
-# Per-property metadata used by tools/zvcheck.py (Lean module holding the property theorems,
-# shrinking strategy, trusted base and what is modelled rather than verified).
-PROPS = {
-    "C35": {
-        "lean": "ZV.Props.C35",
-        "shrink": "ops",
-        "level_text": "Proof: run_refines shows, by induction over arbitrary operation sequences, that the branch-for-branch Lean model of Put/Get equals an abstract bounded-LRU map (nil Put = delete only); size_le_cap, get_after_put, put_nil_removes_only, evicts_lru_first, get_hit_non_nil are the sentences of the property for every reachable state. The model is tied to the Go code by running every history up to length 4/5 over 3 keys and capacities 1..3 plus long random histories through the public API and through the model and diffing all Get results.",
-        "level_note": "Trusted: Lean kernel + propext/Classical.choice/Quot.sound; the hand-written model (exercised by the T2 stream, case counts in evidence); harness and diff tooling; Go runtime, container/list. Mutex/concurrent use not modelled.",
-        "technique": "Lean 4 refinement proof (invariant + induction over op sequences) + exhaustive short-history correspondence with the Go code",
-        "trusted": ["hand-written Lean model ZV.Model.C35 of tls/common.go lruSessionCache.Put/Get, tied to the Go code by the T2 stream c35 (public API NewLRUClientSessionCache/Put/Get)"],
-        "modelled": ["sync.Mutex locking of the cache is not modelled (single-threaded histories)",
-                     "*ClientSessionState values are abstracted to identities"],
-        "assumptions": ["container/list and Go maps behave as documented"],
-    },
-}
-
-# properties with no check: id -> reason
-NOT_APPLICABLE = {}
-
-# commits in /repo that add verif-tagged hook files
-HOOK_COMMITS = []
+# Per-property metadata used by tools/zvcheck.py and tools/mkmanifest.py: one JSON file per property in
+# tools/props/Cxx.json  (keys: lean, level, level_text, level_note, technique, shrink, trusted, modelled,
+# assumptions, timeout_s, serial …).
+import json, os, glob
+_d = os.path.join(os.path.dirname(os.path.abspath(__file__)), "props")
+PROPS = {}
+for f in sorted(glob.glob(os.path.join(_d, "C*.json"))):
+    PROPS[os.path.basename(f)[:-5]] = json.load(open(f))
+_na = os.path.join(_d, "not_applicable.json")
+NOT_APPLICABLE = json.load(open(_na)) if os.path.exists(_na) else {}
+_hc = os.path.join(_d, "hook_commits.json")
+HOOK_COMMITS = json.load(open(_hc)) if os.path.exists(_hc) else []
